@@ -181,7 +181,7 @@ def direct_checks(rep, label, p, n, hs, coords_of_hs, cells, ds_of_cells):
                 break
         rep.count('adjacent_pairs', len(hs1))
     # refinement: dfc(p+1, 2c+b) >> n == dfc(p, c)
-    if guard(p + 1, n):
+    if guard(p + 1, n) and cells:
         sub = cells if len(cells) <= 4096 else cells[::max(1, len(cells) // 4096)]
         dsub = dict((tuple(c), d) for c, d in zip(cells, ds_of_cells))
         kids, par = [], []
@@ -325,6 +325,30 @@ def run(rep):
                       {'dir': 'dfc', 'p': p, 'n': n, 'cells': [cells[j]], 'impl': dvec[j],
                        'impl_state': st[j] if st else None, 'model': model})
     rep.extra['kernel_cases'] = len(cfd_cases) + len(dfc_cases)
+    if tier != 'quick':
+        kernel_sweep(rep)
+
+
+def kernel_sweep(rep):
+    """thorough tier: adjacency / round trip / range / classical identity of the MODEL for every
+    distance of orders beyond C07_scope, evaluated inside the kernel in shards (no theorem is
+    stated for them; a failure is reported as a violation of the property by the model)"""
+    cases, metas = [], []
+    for p, n in ((8, 2), (9, 2), (10, 2), (5, 3), (6, 3), (4, 4)):
+        top = 1 << (n * p)
+        step = 2048
+        for lo in range(0, top, step):
+            cases.append((C.Nat(p), C.Nat(n), U.NN(lo), U.NN(min(step, top - lo))))
+            metas.append((p, n, lo))
+    fn = "fun c => let '(p, n, lo, cnt) := c in check_d_range p n lo cnt"
+    bad = C.coq_mismatches('Model.Hilbert Spec.Curve Proofs.HilbertUpto', fn, 'nat * nat * N * N', 'bool',
+                           cases, [True] * len(cases), shard=8)
+    rep.extra['kernel_sweep_distances'] = sum(int(str(c[3]).rstrip('%N')) for c in cases)
+    for i in bad[:3]:
+        p, n, lo = metas[i]
+        rep.violation('model-sweep', 'the model violates round trip / adjacency / classical identity '
+                                     'somewhere in a block of distances',
+                      {'dir': 'cfd', 'p': p, 'n': n, 'hs': list(range(lo, lo + 8)), 'block_start': lo})
 
 
 def locate_cfd(p, n, hs, vec):
